@@ -509,6 +509,16 @@ theorem fixed_map_size :
     ∧ verdict (flat "K" ["m"] [("m", .mapAny { max := some 1 }), ("b", .boolean)])
       (.inst "K" [("m", .dict [(.str "p", .int 1)])]) = true := by decide
 
+/-- fixed (was finding `admits:null-in-container`): in element position `Optional[X]` is exported as
+    `{"anyOf": [X, {"type": "null"}]}`; an array holding None validates (at class level the schema of an
+    Optional field stays the schema of X) -/
+theorem fixed_null_in_container :
+    verdict (flat "K" ["a"] [("a", .seqOf .list (.anyOf [.integer {}, .noneF]) {}), ("o", .anyOf [.integer {}, .noneF])])
+      (.inst "K" [("a", .list [.int 1, .none]), ("o", .int 2)]) = true
+    ∧ wfOf (flat "K" ["a"] [("a", .seqOf .list (.anyOf [.integer {}, .noneF]) {}), ("o", .anyOf [.integer {}, .noneF])]) = true
+    ∧ verdict (flat "K" ["m"] [("m", .mapOf (.string none none none) (.anyOf [.boolean, .noneF]) {}), ("b", .boolean)])
+      (.inst "K" [("m", .dict [(.str "k", .none)])]) = true := by decide
+
 /-- finding `exact:enum-null` (since fix 512799b an Enum with a None value is exported, with `null` among the
     enum members): the schema admits `{"d": null}` for a required `d`; the runtime treats a null as an
     absent key and rejects the document -/
